@@ -247,7 +247,9 @@ inductive UErr where
   deriving Repr, DecidableEq
 
 /-- `Unwrap(wrapped, r)`: `wrapped = none` stands for a record that is not a `*Wrapper`; `load f data` is
-    `dsd.LoadAsFormat(data, f, r)` on a fresh `r` (`none` = error). On success the key is transferred with
+    `dsd.LoadAsFormat(data, f, r)` (`none` = error); the codec is taken to leave the key fields of `r` alone
+    (true of encoding/json, which never touches unexported fields; msgpack's array form resets the whole struct —
+    the harness hands keyed targets to JSON payloads only). On success the key is transferred with
     `r.SetKey(wrapped.Key())` (ignored if `r` already has a key) and the metadata pointer is shared. -/
 def unwrap {α : Type} (load : Nat → Bytes → Option α) (wrapped : Option (Base × Wrapper)) (r : Typed α) :
     Except UErr (Typed α) :=
